@@ -170,9 +170,16 @@ class Field(object):
         return (self.name, self.unpack(data, offset, psize))
 
     def pack(self, value, psize=0):
+        # values of a (non raw) Field are instances of its type:
         if self.count > 0:
-            return b"".join([self.type().pack(v,psize) for v in value])
-        return self.type.pack(value,psize)
+            return b"".join([self.__pack1(v,psize) for v in value])
+        return self.__pack1(value,psize)
+
+    def __pack1(self, value, psize=0):
+        if isinstance(value, StructCore):
+            return value.pack(None,psize)
+        # (a typedef unpacks to the raw value of its only field)
+        return self.type().pack([value],psize)
 
     def copy(self,obj=None):
         cls = self.__class__
